@@ -277,6 +277,10 @@ def query_traversal(node, callback, is_table=False, is_target=False, parent_quer
                 node.field = node_out
 
     elif isinstance(node, ast.Case):
+        if node.arg is not None:
+            node_out = query_traversal(node.arg, callback, parent_query=parent_query)
+            if node_out is not None:
+                node.arg = node_out
         rules = []
         for condition, result in node.rules:
             condition2 = query_traversal(condition, callback, parent_query=parent_query)
